@@ -810,7 +810,11 @@ impl Check for C03 {
             _ => ("client", ((t - 13) % 10) as usize),
         };
         out.count(&format!("pair_{}_x_{}", target_name, GENERATORS[gen]), 1);
-        out.shape(mix(mix(t, gen as u64), rng.below(64)));
+        let tally = |out: &Out| -> (u64, u64, u64, u64) {
+            let g = |k: &str| out.counters.get(k).copied().unwrap_or(0);
+            (g("outcome_ok"), g("outcome_err"), g("messages_decoded"), g("calls_monitored"))
+        };
+        let before = tally(out);
         match target_name {
             "handshake" => run_handshake(rng, out, gen),
             "deserializer" => run_deserializer(rng, out, gen),
@@ -818,10 +822,24 @@ impl Check for C03 {
             "server" => run_server(rng, out, gen, state),
             _ => run_client(rng, out, gen, state),
         }
+        // shape: (target, state, generator) x what was observed (how many calls returned Ok / Err,
+        // how many messages came out, how many calls the input was split into - bucketed)
+        let after = tally(out);
+        let b = |x: u64| -> u64 {
+            match x {
+                0 => 0,
+                1 => 1,
+                2..=3 => 2,
+                4..=15 => 3,
+                16..=255 => 4,
+                _ => 5,
+            }
+        };
+        out.shape(mix(mix(t, gen as u64), mix(b(after.0 - before.0) * 36 + b(after.1 - before.1) * 6 + b(after.2 - before.2), b(after.3 - before.3))));
         out.sample(|| json!({"target": target_name, "state": if target_name == "server" { SERVER_STATES[state] } else if target_name == "client" { CLIENT_STATES[state] } else { "-" }, "generator": GENERATORS[gen]}));
     }
     fn rule(&self) -> String {
-        "targets {Handshake (both roles, with/without generated p0+p1), ChunkDeserializer + MessagePayload::to_rtmp_message on everything it returns, MessagePayload::to_rtmp_message / rml_amf0::deserialize on arbitrary (type id, body), ServerSession in 10 state classes, ClientSession in 10 state classes} x generators {random bytes (optionally with a valid basic header); well-formed chunk streams carrying arbitrary (type id, body) with bodies empty/short/random/valid/valid-truncated/wrong-arity AMF0/AMF0 nested <= 32/declared lengths with nothing behind/mutated; protocol commands and data messages with arbitrary argument lists (NaN, negative, huge, fractional ids; missing and ill-typed arguments; AMF3-flagged) interleaved with media and application calls with arbitrary ids; chunk-level hostility (shrinking length mid-message, delta headers with small extended timestamps, compressed headers on unseen csids, chunk sizes 0/1/2^31-1/top bit, aborts, zero-length messages, 16 MiB announced with few bytes, hundreds of distinct csids, stray type-3 chunks, arbitrary header fields); mutated valid foreign streams; valid foreign streams}, enumerated round-robin (every target-state x generator pair), each fed in a random partition. Session states are reached by a valid prefix with a reference-encoding peer. Case 0 replays the fixed witnesses of the defects found on the pinned tree. Every library call runs under the panic monitor (overflow-checks and debug-assertions on), the allocator bound peak <= 256 x bytes fed + 33 MiB and the 20 s CPU watchdog. distinct = (target, state, generator, 6-bit seed class).".to_string()
+        "targets {Handshake (both roles, with/without generated p0+p1), ChunkDeserializer + MessagePayload::to_rtmp_message on everything it returns, MessagePayload::to_rtmp_message / rml_amf0::deserialize on arbitrary (type id, body), ServerSession in 10 state classes, ClientSession in 10 state classes} x generators {random bytes (optionally with a valid basic header); well-formed chunk streams carrying arbitrary (type id, body) with bodies empty/short/random/valid/valid-truncated/wrong-arity AMF0/AMF0 nested <= 32/declared lengths with nothing behind/mutated; protocol commands and data messages with arbitrary argument lists (NaN, negative, huge, fractional ids; missing and ill-typed arguments; AMF3-flagged) interleaved with media and application calls with arbitrary ids; chunk-level hostility (shrinking length mid-message, delta headers with small extended timestamps, compressed headers on unseen csids, chunk sizes 0/1/2^31-1/top bit, aborts, zero-length messages, 16 MiB announced with few bytes, hundreds of distinct csids, stray type-3 chunks, arbitrary header fields); mutated valid foreign streams; valid foreign streams}, enumerated round-robin (every target-state x generator pair), each fed in a random partition. Session states are reached by a valid prefix with a reference-encoding peer. Case 0 replays the fixed witnesses of the defects found on the pinned tree. Every library call runs under the panic monitor (overflow-checks and debug-assertions on), the allocator bound peak <= 256 x bytes fed + 33 MiB and the 20 s CPU watchdog. distinct = (target, state, generator) x bucketed observation (calls returning Ok, calls returning Err, messages decoded, number of calls).".to_string()
     }
     fn assumptions(&self) -> Vec<String> {
         vec![
